@@ -406,6 +406,7 @@ class TU(object):
         self.globals = {}    # name -> N(VarDecl) from repo files
         self.records = {}    # struct name -> [(field, type)]
         self.typedefs = {}   # name -> type
+        self.sysrecords = {} # system struct name -> [field names]
         self.order = []      # function names in document order
         self.digest = None
 
@@ -437,6 +438,7 @@ def _load_tu(family):
     del p
     conv = _Conv()
     tu = TU(family)
+    anon = {}
     for top in doc.get("inner", ()):
         # decide by the decl's own location whether it is a repo decl; the
         # location state must be advanced either way
@@ -473,6 +475,18 @@ def _load_tu(family):
                 t = top.get("type") or {}
                 tu.typedefs[top["name"]] = (t.get("desugaredQualType")
                                             or t.get("qualType"))
+                for el in top.get("inner", ()):
+                    otd = el.get("ownedTagDecl") or {}
+                    if otd.get("id") in anon:
+                        tu.sysrecords[top["name"]] = anon[otd["id"]]
+            elif kind == "RecordDecl" and top.get("inner"):
+                # system structs (type object, method suites): field names only
+                fl = [c.get("name") for c in top["inner"]
+                      if c.get("kind") == "FieldDecl"]
+                if top.get("name"):
+                    tu.sysrecords[top["name"]] = fl
+                else:
+                    anon[top.get("id")] = fl
             conv.skip(top)
     # resolve goto targets to label names
     for fn in tu.funcs.values():
